@@ -106,15 +106,27 @@ Theorem C20_json_error_bodies : forall msg,
 Proof. exact (fun msg => conj (auth_error_json_ok msg) (proxy_xhr_json_ok msg)). Qed.
 Print Assumptions C20_json_error_bodies.
 
-(* The correspondence monitors accept the model's own prediction for every input. *)
+(* The correspondence monitors accept the model's own prediction for every input; a further
+   (Accept, X-Requested-With) combination is accepted when the handler serves the same page as
+   HTML or the model's JSON body as JSON; and a body served under an HTML type is accepted only
+   with the benign skeleton. *)
 Theorem C20_monitors_accept_model :
   (forall svc page field ctx payload, judge (CHole svc page field ctx payload (html_replace payload)) = 0) /\
-  (forall svc msg, judge (CJson svc msg (if svc =? 0 then proxy_xhr_json msg else auth_error_json msg)) = 0) /\
+  (forall svc msg, judge (CJson svc msg ct_json (if svc =? 0 then proxy_xhr_json msg else auth_error_json msg) []) = 0) /\
   (forall svc site real segs, rebuild real segs = real -> final_state real = SData ->
-     judge (CSame svc site real segs) = 0) /\
+     judge (CSame svc site ct_html real segs []) = 0) /\
   (forall svc name F d d0 real segs via,
      page_safe (tpls_of svc) name = true -> output_only (tpls_of svc) name F = true -> rec_agree F d d0 ->
      render_page (tpls_of svc) name d = Some real -> render_page (tpls_of svc) name d0 = Some (rebuild real segs) ->
-     judge (CPage svc name d real segs via) = 0).
-Proof. exact (conj judge_hole_model (conj judge_json_model (conj judge_same_model judge_page_model))). Qed.
+     judge (CPage svc name d ct_html real segs via []) = 0) /\
+  (forall real benign, page_inert real benign = true ->
+     var_mismatch real [] (Var 0 ct_html None None) = false /\ var_holds real benign (Var 0 ct_html None None) = true) /\
+  (forall svc data real benign,
+     var_mismatch real (model_json svc data) (Var 1 ct_json (Some [SLit (model_json svc data)]) None) = false /\
+     var_holds real benign (Var 1 ct_json (Some [SLit (model_json svc data)]) None) = true) /\
+  (forall body benign, resp_inert ct_html body benign = true -> skeleton body = skeleton benign).
+Proof.
+  exact (conj judge_hole_model (conj judge_json_model (conj judge_same_model (conj judge_page_model
+        (conj var_same_page_ok (conj var_json_ok resp_inert_html_needs_skeleton)))))).
+Qed.
 Print Assumptions C20_monitors_accept_model.
